@@ -16,22 +16,22 @@ import (
 // crashJob is one crash image (a directory holding data/) together with the
 // states the property allows after recovery.
 type crashJob struct {
-	dir       string
-	cands     []*model.DB // acceptable post-recovery states, in preference order
-	label     string      // coverage label
-	cont      int         // continuation statements (0: none)
-	chain     int         // further crash/recover cycles inside the continuation
-	seed      uint64
-	replay    interface{}
-	sigMap    func(j *crashJob, sig string) string
-	classSig  string // when set, every failure of this job is reported under this one signature
-	ignore    string // table whose CREATE was in flight at the crash: not judged
-	noSecond  bool // skip the second recovery (C04 judges start-up and contents only)
-	real      bool // produced by a real SIGKILL
+	dir      string
+	cands    []*model.DB // acceptable post-recovery states, in preference order
+	label    string      // coverage label
+	cont     int         // continuation statements (0: none)
+	chain    int         // further crash/recover cycles inside the continuation
+	seed     uint64
+	replay   interface{}
+	sigMap   func(j *crashJob, sig string) string
+	classSig string // when set, every failure of this job is reported under this one signature
+	ignore   string // table whose CREATE was in flight at the crash: not judged
+	noSecond bool   // skip the second recovery (C04 judges start-up and contents only)
+	real     bool   // produced by a real SIGKILL
 	// results
-	matched   int // index of the matching candidate, -1 none
-	failed    bool // recovery stage failed
-	failedB   bool // continuation stage failed
+	matched   int   // index of the matching candidate, -1 none
+	failed    bool  // recovery stage failed
+	failedB   bool  // continuation stage failed
 	recDirty  int64 // pages marked dirty by the first recovery
 	recWrites int64
 	dump      []proto.TableDump
